@@ -91,8 +91,8 @@ pub fn acceptor(c: Cert) -> Result<(TlsAcceptor, Vec<u8>), String> {
             return Ok(a.clone());
         }
         let (cf, kf) = c.files();
-        let cert = std::fs::read_to_string(format!("/verif/fixtures/{}", cf)).map_err(|e| format!("{}: {}", cf, e))?;
-        let key = std::fs::read_to_string(format!("/verif/fixtures/{}", kf)).map_err(|e| format!("{}: {}", kf, e))?;
+        let cert = std::fs::read_to_string(format!("{}/fixtures/{}", crate::root(), cf)).map_err(|e| format!("{}: {}", cf, e))?;
+        let key = std::fs::read_to_string(format!("{}/fixtures/{}", crate::root(), kf)).map_err(|e| format!("{}: {}", kf, e))?;
         let id = Identity::from_pkcs8(cert.as_bytes(), key.as_bytes()).map_err(|e| format!("identity {}: {}", cf, e))?;
         let acc = TlsAcceptor::new(id).map_err(|e| format!("acceptor: {}", e))?;
         let spk = vref::der::spki_key_bits(&vref::der::pem_to_der(&cert))?;
